@@ -12,6 +12,7 @@ mod rng;
 mod runner;
 mod shim;
 mod shrink;
+mod walsim;
 mod world;
 mod evidence;
 
